@@ -101,3 +101,10 @@ func describeMatch(r *Result, offsets []Offset) string {
 func TestVerifC05_ItemCaches(t *testing.T) {
 	rapid.Check(t, propC05ItemCaches)
 }
+
+// The chunk-level history relation: what a query finds in a chunk does not
+// depend on which queries were evaluated on that chunk before (the per-chunk
+// result cache is shared by all of them).
+func TestVerifC05_ChunkCacheHistory(t *testing.T) {
+	rapid.Check(t, func(t *rapid.T) { cacheMachineProp(t, "C05/chunk-cache-history") })
+}
